@@ -2,6 +2,7 @@
 Monitor: attributes and field lists in the emitted token stream (syn summary) for every strategy,
 plus deserialisation of payloads that still carry the deprecated keys under `deny` in compiled
 consumer code; oracle: per-field expectation computed from the schema model and the strategy."""
+import json
 import os
 import shutil
 from collections import Counter
@@ -24,7 +25,8 @@ RULE = ("schemas with random deprecated subsets of object and interface fields (
         "are also compiled (every third one in derive form: the strategy comes from the attribute, items in varying order) and fed conforming payloads that still contain the deprecated keys. Non-trivial = case whose document "
         "selects >= 1 deprecated field; distinct by (schema, document, strategy). In every second schema an implementing object's "
         "copy of an interface field differs from the interface's declaration in deprecation (deprecated on one side only, or with "
-        "another reason): each selection follows the declaration in whose scope it stands")
+        "another reason): each selection follows the declaration in whose scope it stands. In every second JSON schema half of "
+        "the fields that are NOT deprecated carry a non-null deprecationReason (\"\", \"n/a\", a text): isDeprecated decides")
 
 STRATEGIES = [("allow", "allow"), ("warn", "warn"), ("deny", "deny"), ("unset", None)]
 FLOOR = {"fields-checked": 3000, "deprecated-fields-checked": 300, "with-reason": 100, "without-reason": 20, "deny-omitted": 80, "deny-payloads": 100, "declaration-specific-deprecation": 10, "deny-derive-delivery": 5}
@@ -86,6 +88,27 @@ def deprecation_of(schema, fname):
     return None
 
 
+
+def stale_reasons(text, seen):
+    """introspection JSON in which every second non-deprecated object / interface field carries a non-null deprecationReason"""
+    d = json.loads(text)
+    n = [0]
+
+    def walk(x):
+        if isinstance(x, dict):
+            if x.get("isDeprecated") is False and "type" in x and "args" in x:
+                n[0] += 1
+                if n[0] % 2:
+                    x["deprecationReason"] = ["", "n/a", "No longer supported"][n[0] % 3]
+            for v in x.values():
+                walk(v)
+        elif isinstance(x, list):
+            for v in x:
+                walk(v)
+    walk(d)
+    seen.append(n[0])
+    return json.dumps(d)
+
 def main(run):
     run.rule = RULE
     run.assumptions = ["response key -> schema field is a function in the generated schemas (globally unique field and alias names)",
@@ -97,9 +120,17 @@ def main(run):
     os.makedirs(work)
     reqs, meta = [], {}
     deny_cases = []
+    stale_seen = []
     for si in range(n_schemas):
         schema = gen_schema(rng, deprecations=0.4, odd_type_names=(si % 4 == 0), own_deprecation=0.5 if si % 2 else 0.0)
         fmt, text, ext = render_schema(schema, rng)
+        if ext == "json" and len(stale_seen) % 2 == 0:
+            # servers that answer deprecationReason "" (or a leftover text) for fields that are NOT deprecated: isDeprecated
+            # decides, such a field is neither marked nor omitted (C14-r10m1). No rng draw: the other streams stay as they were
+            text = stale_reasons(text, stale_seen)
+            run.count("json-stale-deprecation-reason")
+        elif ext == "json":
+            stale_seen.append(0)
         sp = os.path.join(work, "s%d.%s" % (si, ext))
         open(sp, "w").write(text)
         for di in range(3):
